@@ -51,6 +51,12 @@ var frameIDs = []struct{ frag, id string }{
 	{"cmdNearby", "crash-nearby-buffer"},
 	{"cmdEvalUnified", "crash-eval-huge-numkeys"},
 	{"tidwall/sjson.", "crash-jset-huge-index"},
+	{"collection.(*Collection).searchRect", "crash-area-type-geo"},
+	{"searchRect", "crash-area-type-geo"},
+	{"cmdAOFMD5", "crash-aofmd5-no-aof"},
+	{"(*Server).checksum", "crash-aofmd5-no-aof"},
+	{"ConvertToRESP", "crash-script-cyclic-table"},
+	{"ConvertToJSON", "crash-script-cyclic-table"},
 }
 
 var nonAlnum = regexp.MustCompile(`[^a-zA-Z0-9]+`)
